@@ -15,7 +15,7 @@ REACTIONS = {
     'r_delay': (['B'], [], 'massaction', {'k': 0.6}, 'fixed', [], ['C'], {'delay': 0.3}),
     'r_gdelay': (['A'], [], 'massaction', {'k': 0.7}, 'gaussian', [], ['B'], {'mean': 0.3, 'std': 0.2}),
 }
-OPS = ['species', 'r_ma', 'r_hill', 'r_gen', 'r_delay', 'r_gdelay', 'r_bad', 'rule_bad', 'param', 'rule', 'rule_dt', 'setp', 'setps', 'sets', 'init', 'iface', 'iface_safe',
+OPS = ['species', 'r_ma', 'r_hill', 'r_gen', 'r_delay', 'r_gdelay', 'r_bad', 'r_late_param', 'rule_bad', 'param', 'rule', 'rule_dt', 'setp', 'setps', 'sets', 'init', 'iface', 'iface_safe',
        'sim_det', 'sim_ssa', 'sim_safe', 'sim_vol', 'sim_delay', 'sim_delayvol', 'sim_iface', 'sim_iface_det', 'other_det', 'seed']
 
 
@@ -62,6 +62,24 @@ def apply(m, sh, op, ctx_state, c, case):
         else:
             c.violation('C08/rejected-edit-accepted', 'create_reaction accepted %r' % (bad,), case)
         edited = True
+    elif op == 'r_late_param':
+        # a reaction that brings a new species and a parameter that has no value yet; an initialisation is attempted (and refused),
+        # then the parameter is given its value: the definition now contains the reaction, the species (at 0) and the parameter
+        if 'kq' not in dict(sh.params):
+            rx = (['A'], ['Dq'], 'massaction', {'k': 'kq'})
+            m.create_reaction(list(rx[0]), list(rx[1]), rx[2], dict(rx[3]))
+            try:
+                m.py_initialize()
+            except Exception:
+                pass
+            else:
+                c.violation('C08/rejected-edit-accepted', 'a model with a parameter without a value was initialised', case)
+            m.set_parameter('kq', 0.45)
+            sh.reactions.append(rx)
+            sh.params.append(('kq', 0.45))
+            if 'Dq' not in sh.species:
+                sh.species.append('Dq')
+            edited = True
     elif op == 'rule_bad':
         # a rule that is rejected (its right-hand side cannot be parsed; an additive rule over a species that does not exist)
         n_bad = ctx_state['bad_rule'] = ctx_state.get('bad_rule', 0) + 1
@@ -301,7 +319,7 @@ def run(ctx):
     pmap(check, hists, ctx, nshards=512)
     ctx.bounds = dict(history_length=L, alphabet=OPS, histories=len(hists))
     ctx.rule = ('E3: every operation sequence up to the length bound over {add species; add a mass-action / proportional-Hill (named parameters) / '
-                'general / fixed-delay / Gaussian-delay reaction; an add-reaction call and an add-rule call that are rejected; add a parameter; add a species-assigning repeated rule; add a dt counter rule (not idempotent); set a parameter; set a species value; '
+                'general / fixed-delay / Gaussian-delay reaction; an add-reaction call and an add-rule call that are rejected; a reaction whose parameter is given its value only after a refused initialisation; add a parameter; add a species-assigning repeated rule; add a dt counter rule (not idempotent); set a parameter; set a species value; '
                 'py_initialize; build and keep a plain / safe interface; simulate through py_simulate_model in deterministic, SSA, safe, volume '
                 'delay and delay+volume mode; simulate (SSA and deterministic) through the kept interface while it is current; integrate an unrelated model in between; seed} is applied to a real Model while a shadow '
                 'definition is maintained. After every history: seeded SSA / safe / volume / delay trajectories (2 seeds + a scripted stream), '
